@@ -6,7 +6,8 @@ control endpoint (used by C12 and C14; extends `Model/Device/Control.lean`, whic
   * `USBStreamInEndpoint`  = `USBInTransferManager` with `active = (tokenizer.endpoint == number)`,
                              `generate_zlps = 1`, `start_with_data1 = 0`, `flush = discard = 0`
   * `USBStreamOutEndpoint` = boundary detector + transactional FIFO + ACK/NAK/toggle glue
-  * `USBSignalInEndpoint`
+  * `USBSignalInEndpoint` (with the halt-clear input of fix 08e26ae: a strobe naming its number and the IN
+    direction resets its toggle to DATA0)
   * `USBEndpointMultiplexer`: token detector / handshake detector / halt-clear strobe broadcast to every
     endpoint, responses OR-merged (at most one endpoint answers, theorem `C12.at_most_one_answers`)
 
@@ -129,11 +130,12 @@ def pidToggleBit (pid : Nat) : Bool := pid / 8 % 2 == 1
 /-- A data packet while the last token was an OUT token for this endpoint. -/
 def outData (mps : Nat) (s : OutState) (pid : Nat) (p : List Nat) (crcOk : Bool) : OutState × Resp :=
   if pidToggleBit pid == s.toggle then
-    -- `transfer_active` follows the last byte *written*, also of a packet that is discarded later
-    let act := if p.isEmpty then s.active else decide (p.length = mps)
+    -- `transfer_active` follows accepted packets only (fix 9fd0de6): a full packet continues the transfer,
+    -- a short or zero-length one ends it, a discarded packet changes nothing
     if crcOk then
-      ({ toggle := !s.toggle, fifo := s.fifo ++ outEntries mps s.active p, active := act }, .hs PID_ACK)
-    else ({ s with active := act }, .none)
+      ({ toggle := !s.toggle, fifo := s.fifo ++ outEntries mps s.active p, active := decide (p.length = mps) },
+       .hs PID_ACK)
+    else (s, .none)
   else if crcOk then (s, .hs PID_ACK)               -- should_skip: a repeated packet is ACKed and dropped
   else (s, .none)
 
@@ -236,6 +238,7 @@ def epStep (c : EpCfg) (sh : Shared) (st : EpState) (e : HostEvent) : EpState ×
     | _ => (.sout s, {})
   | .sig s =>
     let s := if sh.newTok then sigNewToken s else s
+    let s := if haltHits c true sh then { s with toggle := false } else s     -- fix 08e26ae
     match e with
     | .token _ _ _ =>
       if sh.newTok ∧ sh.tokEp = c.num ∧ sh.tokPid = PID_IN then
